@@ -8,6 +8,7 @@ import (
 	"fmt"
 	"os"
 	"path"
+	"strings"
 	"sync"
 	"time"
 	"unicode/utf16"
@@ -45,7 +46,7 @@ type ftCfg struct {
 type ftOp struct {
 	C   int     `json:"c,omitempty"` // issuing client (interleaved runs)
 	Op  string  `json:"op"`          // write | read
-	API string  `json:"api"` // obj.WriteVar, legacy.WriteEfivarsWithGuid, obj.GetVar, typed.Getdb, …
+	API string  `json:"api"`         // obj.WriteVar, legacy.WriteEfivarsWithGuid, obj.GetVar, typed.Getdb, …
 	Var VarSpec `json:"var"`
 	// write: the value
 	Val ValSpec `json:"val"`
@@ -106,6 +107,8 @@ func (v ValSpec) Bytes() []byte {
 		}
 		ls = append(ls, RefList{Type: wireX509, Size: 0})
 		return refESLEncode(ls)
+	case "randdb":
+		return refRandDB(uint64(v.Tag))
 	case "bool":
 		return []byte{byte(v.N)}
 	case "str":
@@ -345,11 +348,13 @@ func genVarSpec(r *R) VarSpec {
 }
 
 func genVal(r *R) ValSpec {
-	switch r.Intn(6) {
+	switch r.Intn(7) {
 	case 0:
 		return ValSpec{Kind: "hashdb", N: r.Range(0, 5), Tag: r.Intn(200)}
 	case 1:
 		return ValSpec{Kind: "certdb", Tag: r.Intn(poolSize)}
+	case 2:
+		return ValSpec{Kind: "randdb", Tag: r.Intn(1 << 24)}
 	default:
 		n := Pick(r, []int{0, 1, 2, 3, 4, 5, 8, 47, 48, 511, 512, 4095, 4096})
 		if r.Chance(1, 40) {
@@ -439,6 +444,29 @@ func (e *fstraceEngine) Gen(seed uint64, tier string, run int) *Trace {
 				} else {
 					c.ops = append(c.ops, ftOp{C: cl, Op: "read", API: "legacy.ReadEfivars", Var: v, Stored: &StoredSpec{Mask: uint32(vv.Attributes), Val: genVal(r)}})
 				}
+				continue
+			}
+			if c.cfg.Clients <= 1 && r.Chance(1, 7) {
+				// a typed accessor on a value of arbitrary (well-formed) shape
+				acc := Pick(r, ftTyped)
+				val := acc.val
+				switch acc.val.Kind {
+				case "certdb", "hashdb":
+					val = Pick(r, []ValSpec{{Kind: "randdb", Tag: r.Intn(1 << 24)}, {Kind: "randdb", Tag: r.Intn(1 << 24)}, {Kind: "hashdb", N: r.Range(0, 9), Tag: r.Intn(200)},
+						{Kind: "certdb", Tag: r.Intn(poolSize)}, {Kind: "multidb", N: r.Range(2, 4), Tag: r.Intn(4)}, {Kind: "tailemptydb", N: r.Intn(3), Tag: r.Intn(4)}})
+				case "bool":
+					val.N = r.Intn(2)
+				case "bootorder":
+					val.N, val.Tag = r.Range(1, 9), r.Intn(0x10000)
+				case "str":
+					val.Tag = r.Intn(100000)
+				}
+				req := uint32(acc.v().Attributes)
+				st := &StoredSpec{Mask: req, Val: val}
+				if r.Chance(1, 4) {
+					st.Mask = req | uint32(r.Intn(0x100))
+				}
+				c.ops = append(c.ops, ftOp{C: cl, Op: "read", API: "typed." + acc.name, Var: acc.spec, Stored: st})
 				continue
 			}
 			if r.Bool() {
@@ -975,7 +1003,9 @@ func ftRead(x *X, i int, op ftOp, v efivar.Efivar, p string, obj *efivarfs.Efiva
 			x.Fail("fstrace.read_succeeds", i, kind, "well-formed variable, accessor returned %v", err)
 			return
 		}
-		if typed != wantTyped {
+		// Boot#### names: which case the hexadecimal digits have is another property's business (the statement here is
+		// that the value comes from the bytes behind the mask), so the comparison does not look at it
+		if typed != wantTyped && !(op.API == "typed.GetBootOrder" && strings.EqualFold(typed, wantTyped)) {
 			x.Fail("fstrace.read_value", i, kind, "accessor returned %q, reference decode gives %q", typed, wantTyped)
 		}
 		return
